@@ -91,24 +91,48 @@ func VPH_pipelineCheck() {
 	if len(got) >= 2 {
 		vp_Assert(got[1].OID == vpOIDOf(id2) && got[1].ObjectType == "tree" && uint64(got[1].ObjectSize) == 345, "second header intact")
 	}
-	// the oid copier between rev-list and cat-file: every truncation of a rev-list line
-	cp := st.linewise["copy-oids"]
-	vp_Assert(cp != nil, "the oid copier stage exists")
-	if cp != nil {
-		line := id1 + " path/to/file"
-		lcut := vp_Choice("linecut", len(line)+1)
+	// the oid copier between rev-list and cat-file, whichever kind of stage implements it:
+	// truncated lines, ordinary lines, and very long paths (rev-list prints the full path)
+	runCopier := func(input string) (string, error, bool) {
 		var out bytes.Buffer
-		w := bufio.NewWriter(&out)
 		var cerr error
-		p2 := vp_Catch(func() { cerr = cp(ctx, pipe.Env{}, []byte(line[:lcut]), w) })
-		w.Flush()
-		vp_Assert(!p2, "the oid copier does not crash on a truncated rev-list line")
-		if !p2 {
-			if lcut < 40 {
-				vp_Assert(cerr != nil && out.Len() == 0, "a line too short for an object id is an error, nothing is forwarded")
-			} else {
-				vp_Assert(cerr == nil && out.String() == id1+"\n", "exactly the object id is forwarded")
-			}
+		var crashed bool
+		if cp := st.linewise["copy-oids"]; cp != nil {
+			w := bufio.NewWriter(&out)
+			crashed = vp_Catch(func() {
+				for _, line := range strings.Split(strings.TrimSuffix(input, "\n"), "\n") {
+					if cerr = cp(ctx, pipe.Env{}, []byte(line), w); cerr != nil {
+						return
+					}
+				}
+			})
+			w.Flush()
+			return out.String(), cerr, crashed
+		}
+		if cf := st.funcs["copy-oids"]; cf != nil {
+			crashed = vp_Catch(func() { cerr = cf(ctx, pipe.Env{}, strings.NewReader(input), &out) })
+			return out.String(), cerr, crashed
+		}
+		vp_Fail("the oid copier stage exists")
+		return "", nil, true
+	}
+	line := id1 + " path/to/file"
+	lcut := vp_Choice("linecut", len(line)+1)
+	got1, cerr, crashed := runCopier(line[:lcut] + "\n")
+	vp_Assert(!crashed, "the oid copier does not crash on a truncated rev-list line")
+	if !crashed {
+		if lcut < 40 {
+			vp_Assert(cerr != nil && got1 == "", "a line too short for an object id is an error, nothing is forwarded")
+		} else {
+			vp_Assert(cerr == nil && got1 == id1+"\n", "exactly the object id is forwarded")
+		}
+	}
+	if lcut == len(line) {
+		for _, plen := range []int{100, 4000, 4096, 5000, 70000} {
+			long := id1 + " " + strings.Repeat("d/", plen/2) + "\n" + id2 + " x\n"
+			got2, cerr2, crashed2 := runCopier(long)
+			vp_Assert(!crashed2 && cerr2 == nil, "paths of any length are accepted")
+			vp_Assert(got2 == id1+"\n"+id2+"\n", "the object ids are forwarded unchanged whatever the path length")
 		}
 	}
 	vp_Reach("end")
@@ -183,7 +207,9 @@ func VPH_pipelineRefs() {
 	ctx := context.Background()
 	repo := &Repository{gitDir: ".", gitBin: "git"}
 	id1, id2 := vpHexID(0x42), vpHexID(0x43)
-	full := id1 + " commit 200 refs/heads/main\n" + id2 + " tag 150 refs/tags/v1\n"
+	// reference names may end in bytes that look like white space to Unicode-aware trimming
+	name1 := []string{"refs/heads/main", "refs/heads/rel\u3000", "refs/heads/nb\u00a0", "refs/heads/x\u0085", "refs/heads/\u2003in\u2003"}[vp_Choice("name", 5)]
+	full := id1 + " commit 200 " + name1 + "\n" + id2 + " tag 150 refs/tags/v1\n"
 	cut := vp_Choice("cut", len(full)+1)
 	data := full[:cut]
 	complete := strings.Count(data, "\n")
@@ -212,10 +238,80 @@ func VPH_pipelineRefs() {
 	}
 	vp_Assert(len(got) == complete, "exactly the complete lines are delivered; a partial line is never turned into a reference")
 	if len(got) >= 1 {
-		vp_Assert(got[0].Refname == "refs/heads/main" && got[0].OID == vpOIDOf(id1) && got[0].ObjectType == "commit" && uint64(got[0].ObjectSize) == 200, "first reference intact")
+		vp_Assert(got[0].Refname == name1 && got[0].OID == vpOIDOf(id1) && got[0].ObjectType == "commit" && uint64(got[0].ObjectSize) == 200, "first reference intact, name bytes exact")
 	}
 	if len(got) >= 2 {
 		vp_Assert(got[1].Refname == "refs/tags/v1" && got[1].OID == vpOIDOf(id2) && got[1].ObjectType == "tag", "second reference intact")
 	}
 	vp_Reach("end")
+}
+
+
+// VPH_pipelineBatchFill: streams of several small objects whose cumulative
+// size (contents + the LF cat-file appends) lands exactly on, one below and
+// one above 4 KiB and 64 KiB - the places where a reader that manages its own
+// buffers is most likely to be off by one.
+func VPH_pipelineBatchFill() {
+	if vp_Native() {
+		vp_Reach("end")
+		return
+	}
+	st := vpCaptureStages()
+	ctx := context.Background()
+	repo := &Repository{gitDir: ".", gitBin: "git"}
+	target := []int{4096, 65536}[vp_Choice("boundary", 2)]
+	k := []int{2, 4, 5, 8}[vp_Choice("objects", 4)]
+	delta := vp_Choice("delta", 3) - 1 // the last object ends at boundary-1, boundary, boundary+1
+	each := target/k - 1                // k objects of (each+1) bytes fill the target when k divides it
+	var sizes []int
+	sum := 0
+	for i := 0; i < k-1; i++ {
+		sizes = append(sizes, each)
+		sum += each + 1
+	}
+	last := target - sum - 1 + delta
+	sizes = append(sizes, last, 3) // and one more small object afterwards
+	var sb strings.Builder
+	for i, n := range sizes {
+		sb.WriteString(vpHexID(byte(0x50+i)) + " blob " + vpItoa(n) + "\n")
+		sb.WriteString(strings.Repeat("x", n))
+		sb.WriteString("\n")
+	}
+	iter, err := repo.NewBatchObjectIter(ctx)
+	read := st.funcs["object-reader"]
+	vp_Assert(err == nil && iter != nil && read != nil, "NewBatchObjectIter")
+	if read == nil || iter == nil {
+		return
+	}
+	var serr error
+	panicked := vp_Catch(func() { serr = read(ctx, pipe.Env{}, strings.NewReader(sb.String()), nil) })
+	vp_Assert(!panicked, "the object reader does not crash, whatever the sizes add up to")
+	if panicked {
+		return
+	}
+	vp_Assert(serr == nil, "a complete stream is read without error")
+	for i, n := range sizes {
+		o, ok, _ := iter.Next()
+		vp_Assert(ok && o.OID == vpOIDOf(vpHexID(byte(0x50+i))) && len(o.Data) == n && uint64(o.ObjectSize) == uint64(n), "every object is delivered with exactly its bytes")
+		if ok && n > 0 {
+			vp_Assert(o.Data[0] == 'x' && o.Data[n-1] == 'x', "contents intact")
+		}
+	}
+	_, more, _ := iter.Next()
+	vp_Assert(!more, "nothing after the last object")
+	vp_Reach("end")
+}
+
+func vpItoa(n int) string {
+	if n == 0 {
+		return "0"
+	}
+	var b [20]byte
+	i := len(b)
+	for n > 0 {
+		i--
+		b[i] = byte('0' + n%10)
+		n /= 10
+	}
+	return string(b[i:])
 }
